@@ -101,10 +101,12 @@ theorem spec_saveRoles (a k : Bytes) (r : List Bytes) (c : Ctx) :
   apply Post.bind
   apply Post.mono (RO.tick .m c)
   intro _ c1 h1
-  apply Post.pure
-  apply Post.mono (spec_writeKey a k _ c1)
-  intro _ c2 h2
-  rw [h2, h1]
+  split
+  · apply Post.pure
+    apply Post.mono (spec_writeKey a k _ c1)
+    intro _ c2 h2
+    rw [h2, h1]
+  · exact Post.fail
 
 theorem args_eq_pair (args : List Bytes) (x y : Bytes) (hl : args.length = 2) (h0 : args[0]? = some x)
     (h1 : args[1]? = some y) : args = [x, y] := by
